@@ -82,6 +82,23 @@ COMMON_TB = [
 ]
 
 PROPS = {
+    "C19": {
+        "harness": "c19", "driver": "c19",
+        "lean_modules": ["BleveModel.Props.C19"],
+        "rule": ("36 fixed strings (scripts, punctuation, HTML, zero-width joiners, NUL, several kinds of invalid UTF-8, very long tokens) "
+                 "plus seeded random strings over a mixed valid/invalid alphabet; (1) the letter and whitespace tokenizers compared "
+                 "token by token with the Lean character-tokenizer model; (2) every registered tokenizer (offset/position invariants), "
+                 "analyzer, token filter (on unicode- and whitespace-tokenised input) and char filter run on every string under "
+                 "recover and a 5 s limit; (3) the simple fragmenter with random term locations (inside and outside the text, inside "
+                 "multi-byte runes, start>end) and fragment sizes 0/1/5/200: no panic, fragments inside the text; (4) html and ansi "
+                 "highlighting end to end for standard, simple, en, cjk, web, keyword, edge-ngram and length-changing (regexp char "
+                 "filter) analyzers: no panic, and for length-preserving analyzers every fragment without markup is a substring of "
+                 "the stored value and every marked span occurs in it. non-trivial = non-empty input; distinct by (component, input)"),
+        "trusted_base": COMMON_TB + ["third-party analysis libraries (segment, snowball, x/text) are explored, not modelled"],
+        "assumptions": [LEVEL_NOTE],
+        "floors": {"ctok/letter": 100, "token_filter/reverse": 100, "fragmenter/locations-outside": 20, "highlight/cjk/html": 5},
+        "thorough_shards": 4,
+    },
     "C17": {
         "harness": "c17", "driver": "echo",
         "lean_modules": ["BleveModel.Props.C17"],
